@@ -50,6 +50,9 @@ pub enum Job {
     CloneConvert(u32),
     /// the same through eval_vec on a clone (consuming evaluation)
     EvalVecShared(u32),
+    /// evaluate one of two very large shared expressions (beyond the tracker's inline capacity of
+    /// 2048 operands) at point p
+    EvalBig(usize, u32),
     /// default float / value tables (global lazily initialised regexes)
     ParseF64(usize),
     ParseVal(usize),
@@ -68,6 +71,34 @@ fn expected(text: &str, t: &Table, p: u32) -> Nf {
 
 const F64_TEXTS: [&str; 2] = ["sin(x)*2+max(x,1)", "{a b}^2-PI"];
 const VAL_TEXTS: [&str; 2] = ["1 if x > 2 else to_int(2.5)", "[1,2,3].1+x"];
+
+const BIG_SIZES: [usize; 2] = [2050, 2300];
+fn big_text(k: usize) -> String {
+    let n = BIG_SIZES[k];
+    let mut t = String::with_capacity(n * 8);
+    for i in 0..n {
+        if i > 0 {
+            t.push_str([" + ", " * ", " - ", " / "][(i * 7 + k) % 4]);
+        }
+        t.push_str(["x", "y", "z", "2"][(i + k) % 4]);
+    }
+    t
+}
+/// (expression, reference term over Var(0..2)) - parsed once per process; only evaluation is
+/// repeated by the histories
+fn big(k: usize) -> &'static (FlatA, Sym) {
+    static CELLS: [std::sync::OnceLock<(FlatA, Sym)>; 2] = [std::sync::OnceLock::new(), std::sync::OnceLock::new()];
+    CELLS[k].get_or_init(|| {
+        let ta = table_a();
+        let text = big_text(k);
+        set_tables();
+        let e = FlatA::parse(&text).expect("big expression parses");
+        let SpecResult::Ok(tree) = spec::read(&text, &ta, LitKind::Sym) else { panic!("harness: big text") };
+        let vars = tree.vars();
+        let want = tree.eval_sym(&vars, &ta);
+        (e, want)
+    })
+}
 
 #[derive(Clone)]
 pub enum Shared {
@@ -131,6 +162,15 @@ pub fn run_job(job: &Job, shared: &Shared, shared_text: &'static str) -> Result<
                 return Err(format!("f(clone of shared) at point {p} evaluates to {}", show(&v, &ta)));
             }
             Ok(format!("{job:?}={}", show(&v, &ta)))
+        }
+        Job::EvalBig(k, p) => {
+            let (e, want) = big(*k);
+            let vals = point(*p, e.var_names().len());
+            let v = e.eval(&vals).map_err(|er| format!("eval of the {}-operand expression failed: {}", BIG_SIZES[*k], er.msg()))?;
+            if v.contains_dflt() || nf_ac(&v, &ta) != nf_ac(&want.subst(&vals), &ta) {
+                return Err(format!("the shared {}-operand expression at point {p} evaluates to a wrong term (size {})", BIG_SIZES[*k], v.size()));
+            }
+            Ok(format!("{job:?}=ok"))
         }
         Job::ParseF64(i) => {
             let e = FlatEx::<f64>::parse(F64_TEXTS[*i]).map_err(|e| e.msg().to_string())?;
@@ -399,7 +439,7 @@ fn fresh_process_replays(bi: usize, rep: &mut Report) {
 
 pub fn run(tier: Tier) -> i32 {
     let mut rep = Report::new("C20", tier);
-    rep.rule = "schedules: real exmex code on shuttle threads under a preemption-bounded DFS scheduler (scheduling point = every call-back into the harness data type / operator factory / literal matcher), all schedules with <= b preemptions, b iterated 0,1,2(,3); sequential histories: all call sequences up to the length bound over 12 jobs in one process; observations must equal the schedule-independent reference; distinct = schedules / histories; non-trivial = schedule with at least one preemption".into();
+    rep.rule = "schedules: real exmex code on shuttle threads under a preemption-bounded DFS scheduler (scheduling point = every call-back into the harness data type / operator factory / literal matcher), all schedules with <= b preemptions, b iterated 0,1,2(,3); sequential histories: all call sequences up to the length bound over 14 jobs (incl. two shared expressions of 2050 / 2300 operands) in one process; observations must equal the schedule-independent reference; distinct = schedules / histories; non-trivial = schedule with at least one preemption".into();
     rep.assumptions = vec![
         "code between two call-backs runs atomically; lazy_static's Once is trusted (who initialises first is enumerated)".into(),
         "Send + Sync of FlatEx / DeepEx is asserted at compile time (harness and /verif/probe)".into(),
@@ -464,8 +504,8 @@ pub fn run(tier: Tier) -> i32 {
     fresh_process_replays(3, &mut rep);
     // sequential histories
     use Job::*;
-    let jobs = vec![EvalShared(0), EvalVecShared(1), ParseEval(0, 0, false, 0), ParseEval(0, 1, false, 1), ParseEval(0, 0, true, 2), ParseEval(0, 1, true, 3), ParseEval(1, 1, false, 0), ParseEval(2, 0, true, 1), CloneConvert(2), ParseF64(0), ParseVal(0), ParseVal(1)];
+    let jobs = vec![EvalShared(0), EvalVecShared(1), ParseEval(0, 0, false, 0), ParseEval(0, 1, false, 1), ParseEval(0, 0, true, 2), ParseEval(0, 1, true, 3), ParseEval(1, 1, false, 0), ParseEval(2, 0, true, 1), CloneConvert(2), ParseF64(0), ParseVal(0), ParseVal(1), EvalBig(0, 0), EvalBig(1, 1)];
     let m = Seq { jobs: Arc::new(jobs), max_len: if tier.thorough() { 5 } else { 4 } };
-    explore(m, &mut rep, "c20", "sequential call histories over 12 jobs");
+    explore(m, &mut rep, "c20", "sequential call histories over 14 jobs");
     rep.finish()
 }
